@@ -58,3 +58,135 @@ def capi_headers(seed, tier):
                 out["violations"].append({"desc": "C17 layout of kodama_step / enumerator values through %s header: %s (expected %s)" % (h, l, want)})
                 out["ok"] = False
     return out
+
+
+# ------------------------------------------------------------------ locations CLI (C18)
+def _gen_csvs(seed, tier, outdir):
+    import random
+    rnd = random.Random(seed * 7919 + 18)
+    os.makedirs(outdir, exist_ok=True)
+    files = []
+
+    def write(name, rows):
+        p = os.path.join(outdir, name)
+        with open(p, "w") as f:
+            f.write("City,Region,Country,Latitude,Longitude\n")
+            for i, (la, lo) in enumerate(rows):
+                f.write("c%d,R,xx,%.7f,%.7f\n" % (i, la, lo))
+        files.append((p, len(rows)))
+
+    big = 300 if tier == "thorough" else 70
+    sizes = [0, 1, 2, 3, 5, 8, 13, 21, 34, big]
+    for k, n in enumerate(sizes):
+        write("rand_%d.csv" % n, [(rnd.uniform(-80, 80), rnd.uniform(-179, 179)) for _ in range(n)])
+    # duplicates (exact ties), poles and antimeridian
+    base = [(rnd.uniform(40, 45), rnd.uniform(-75, -70)) for _ in range(6)]
+    write("dups.csv", [base[rnd.randrange(6)] for _ in range(24)])
+    write("poles.csv", [(90.0, 0.0), (-90.0, 0.0), (90.0, 180.0), (0.0, 180.0), (0.0, -180.0), (0.0, 179.9999999),
+                        (0.0, -179.9999999), (89.9999999, 45.0), (0.0, 0.0), (0.0, 0.0)])
+    write("grid.csv", [(float(i), float(j)) for i in range(5) for j in range(5)])
+    for shipped in ("ma-tiny.csv", "ma-small.csv", "ma-bench-small.csv"):
+        p = os.path.join(kv.REPO, "data", "locations", shipped)
+        if os.path.exists(p):
+            files.append((p, sum(1 for _ in open(p)) - 1))
+    return files
+
+
+def cli_runs(seed, tier):
+    import struct
+    out = {"ok": True, "evaluations": 0, "distinct_nontrivial": 0, "broken": [], "violations": [], "coverage": {}, "samples": []}
+    with kv.Lock("cli_build"):
+        tgt = os.path.join(kv.BUILD, "cli-target")
+        env = dict(kv.ENV, RUSTFLAGS="--cfg kodama_verif", CARGO_TARGET_DIR=tgt)
+        rc, o = kv.sh("timeout 1200 cargo build -p kodama-bin --release --offline 2>&1", cwd=kv.REPO, env=env, timeout=1300)
+    exe = os.path.join(tgt, "release", "locations")
+    if rc != 0 or not os.path.exists(exe):
+        out["ok"] = False
+        out["broken"].append("locations binary does not build: " + o[-2000:])
+        return out
+    ok, o, kvh = kv.harness_build("release")
+    if not ok:
+        out["ok"] = False
+        out["broken"].append("harness build failed: " + o[-2000:])
+        return out
+    work = os.path.join(kv.BUILD, "cli-work-%d-%s" % (seed, tier))
+    files = _gen_csvs(seed, tier, work)
+    methods = ["single", "complete", "average", "weighted", "ward", "centroid", "median"]
+    threads_all = [1, 2, 3, 7, 16]
+    hist = {"threads": {}, "records": {}, "methods": {}}
+    nruns = 0
+    for fi, (csv, n) in enumerate(files):
+        ms = methods if n <= 40 else [methods[(fi + k) % 7] for k in range(3)]
+        for mi, m in enumerate(ms):
+            ths = threads_all if (tier == "thorough" or n <= 13) else [threads_all[(fi + mi) % 5], threads_all[(fi + mi + 2) % 5]]
+            # expected: sequential matrix + linkage from the harness
+            exp_dist = os.path.join(work, "exp.dist")
+            rc, eo = kv.sh("%s cliexpect --csv %s --method %s --save %s" % (kvh, csv, m, exp_dist), timeout=600)
+            if rc != 0:
+                out["broken"].append("harness cliexpect failed: " + eo[-800:])
+                out["ok"] = False
+                continue
+            lines = eo.split("\n")
+            exp_steps = [tuple(int(x) for x in l.split()) for l in lines[1:] if l.strip()]
+            exp_bytes = open(exp_dist, "rb").read()
+            first_stdout = None
+            for t in ths:
+                dist = os.path.join(work, "got.dist")
+                if os.path.exists(dist):
+                    os.remove(dist)
+                env = dict(kv.ENV, RAYON_NUM_THREADS=str(t))
+                import subprocess
+                p = subprocess.run([exe, "--method", m, "--save-dist-to", dist, csv], stdout=subprocess.PIPE, stderr=subprocess.PIPE, env=env, timeout=600)
+                nruns += 1
+                hist["threads"][str(t)] = hist["threads"].get(str(t), 0) + 1
+                hist["records"][str(n)] = hist["records"].get(str(n), 0) + 1
+                hist["methods"][m] = hist["methods"].get(m, 0) + 1
+                where = "locations --method %s %s with RAYON_NUM_THREADS=%d (%d records)" % (m, csv, t, n)
+                if p.returncode != 0:
+                    out["violations"].append({"desc": "C18 %s exited with status %d: %s" % (where, p.returncode, p.stderr.decode()[-300:])})
+                    continue
+                got_bytes = open(dist, "rb").read() if os.path.exists(dist) else b""
+                if got_bytes != exp_bytes:
+                    k = next((i for i in range(min(len(got_bytes), len(exp_bytes))) if got_bytes[i] != exp_bytes[i]), min(len(got_bytes), len(exp_bytes)))
+                    out["violations"].append({"desc": "C18 %s: saved matrix differs from the sequential row-major Haversine matrix at byte %d (entry %d; %d vs %d bytes)" % (where, k, k // 8, len(got_bytes), len(exp_bytes))})
+                text = p.stdout.decode()
+                rows = [l for l in text.split("\n") if l.strip()]
+                got_steps = []
+                try:
+                    for l in rows[1:]:
+                        a, b, d, s = l.split(",")
+                        got_steps.append((int(a), int(b), struct.unpack("<Q", struct.pack("<d", float(d)))[0], int(s)))
+                except Exception as e:
+                    out["violations"].append({"desc": "C18 %s: unparsable output %r" % (where, text[:200])})
+                    continue
+                if got_steps != exp_steps:
+                    k = next((i for i in range(min(len(got_steps), len(exp_steps))) if got_steps[i] != exp_steps[i]), min(len(got_steps), len(exp_steps)))
+                    out["violations"].append({"desc": "C18 %s: step %d is %s but linkage on the row-major Haversine matrix gives %s" % (
+                        where, k, got_steps[k] if k < len(got_steps) else None, exp_steps[k] if k < len(exp_steps) else None)})
+                if first_stdout is None:
+                    first_stdout = p.stdout
+                elif p.stdout != first_stdout:
+                    out["violations"].append({"desc": "C18 %s: stdout differs between thread counts" % where})
+                # load what was saved: byte-identical stdout
+                if os.path.exists(dist):
+                    p2 = subprocess.run([exe, "--method", m, "--load-dist-from", dist, csv], stdout=subprocess.PIPE, stderr=subprocess.PIPE, env=env, timeout=600)
+                    nruns += 1
+                    if p2.returncode != 0 or p2.stdout != p.stdout:
+                        out["violations"].append({"desc": "C18 %s: --load-dist-from of the saved matrix does not reproduce stdout (status %d)" % (where, p2.returncode)})
+            if n in (3, 5) and len(out["samples"]) < 2:
+                out["samples"].append("[cli] %s --method %s -> %s" % (os.path.basename(csv), m, exp_steps))
+    # invalid method names
+    import subprocess
+    bad_names = ["bogus", "Single", "WARD", "", "singl", "average ", "centroid2", "medianx", "complete-linkage"]
+    small = files[4][0]
+    for bname in bad_names:
+        p = subprocess.run([exe, "--method", bname, small], stdout=subprocess.PIPE, stderr=subprocess.PIPE, env=kv.ENV, timeout=120)
+        nruns += 1
+        if p.returncode == 0:
+            out["violations"].append({"desc": "C18 invalid method name %r accepted: exit status 0, stdout %r" % (bname, p.stdout.decode()[:120])})
+    out["evaluations"] = nruns
+    out["distinct_nontrivial"] = len([1 for _, n in files if n >= 3]) * 3
+    out["coverage"] = dict(hist, files=len(files), invalid_names=len(bad_names),
+                           what="locations binary (release) vs sequential Haversine + linkage; saved matrix bytes; load reproduces stdout; thread counts 1,2,3,7,16")
+    out["ok"] = out["ok"] and not out["violations"]
+    return out
